@@ -76,7 +76,10 @@ func MakeFormat(s fmt.State, verb rune) (justV bool, format string) {
 	if z {
 		f.WriteByte('0')
 	}
-	if wp {
+	if wp && w != 0 {
+		// NB: an explicit zero width (e.g. "%*d" with 0) must not be
+		// emitted: "%0d" would be read back as the '0' flag. A zero
+		// width pads nothing, so omitting it is equivalent.
 		f.WriteString(strconv.Itoa(w))
 	}
 	if pp {
